@@ -59,10 +59,33 @@ def simplex(rng, p, kind):
         f[j] = 0
         f[j] = 1 - np.sum(f)
         return [float(x) for x in f]
+    if kind == 'trace':
+        # a phase that has just appeared / is about to disappear: fraction 1e-12 .. 3e-7 (first entry)
+        t = float(10 ** rng.uniform(-12, -6.5))
+        rest = rng.dirichlet(np.ones(p - 1)) * (1 - t)
+        return [t] + [float(x) for x in rest]
     a = float(rng.choice([0.3, 1.0, 5.0]))
     f = rng.dirichlet(a * np.ones(p))
     f = f / np.sum(f)
     return [float(x) for x in f]
+
+
+def trace_case(rng, p, e):
+    """fractions with one trace phase and mobilities with a contrast of 1e6 .. 1e12 between the
+    trace phase and the others (slow trace phase: the denominator of lower Hashin-Shtrikman is of the
+    order of the trace fraction; fast trace phase: upper side); returns (fractions, (p, e) mobilities)"""
+    fr = simplex(rng, p, 'trace')
+    base = 10 ** rng.uniform(-28, -17, (1, e))
+    contrast = 10 ** rng.uniform(6, 12, (1, e))
+    others = base * contrast * 10 ** rng.uniform(0, 1, (p - 1, e))
+    if rng.random() < 0.7:
+        mob = np.vstack([base, others])                    # trace phase is the slowest
+    else:
+        mob = np.vstack([base * contrast * 1e2, others / contrast])      # trace phase is the fastest
+    j = int(rng.integers(0, p))                            # position of the trace phase in the listing
+    order = list(range(1, p))
+    order.insert(j, 0)
+    return [fr[k] for k in order], mob[order]
 
 
 def pick_factor(rng):
@@ -78,8 +101,8 @@ def pick_factor_cfg(rng):
 
 
 def gen_A(rng, quick):
-    kind = str(rng.choice(['exact', 'physical', 'spread', 'equal', 'onehot', 'extreme', 'undefined'],
-                          p=[0.2, 0.2, 0.15, 0.08, 0.1, 0.07, 0.2]))
+    kind = str(rng.choice(['exact', 'physical', 'spread', 'equal', 'onehot', 'extreme', 'undefined', 'trace'],
+                          p=[0.18, 0.17, 0.12, 0.07, 0.08, 0.06, 0.17, 0.15]))
     p = int(rng.choice([1, 2, 3, 4], p=[0.1, 0.35, 0.3, 0.25]))
     e = int(rng.integers(1, 4))
     fr = simplex(rng, p, kind if kind in ('exact', 'onehot', 'extreme') else 'dirichlet')
@@ -96,6 +119,13 @@ def gen_A(rng, quick):
     else:
         mob = 10 ** (rng.uniform(-24, -16, (1, e)) + rng.uniform(-1.5, 1.5, (p, e)))
     undefined = False
+    if kind == 'trace':
+        p = max(p, 2)
+        fr, mob = trace_case(rng, p, e)
+        if rng.random() < 0.2:          # ... next to a phase without mobility model
+            undefined = True
+            cand = [i for i in range(p) if fr[i] > 1e-6]
+            mob[int(rng.choice(cand)), :] = -1
     if kind == 'undefined' and p >= 2:
         undefined = True
         if rng.random() < 0.6:          # whole phases without a mobility model (what kawin produces)
@@ -124,6 +154,32 @@ def run_impl_A(c):
             out['mutated'] = not (np.array_equal(m0, mob) and np.array_equal(f0, fr))
             out['perm'] = [np.atleast_1d(np.array(f(mob[perm], fr[perm], labyrinth_factor=c['n']), dtype=np.float64)).tolist() for f in funcs]
             out['pf'] = np.power(fr, c['n']).tolist()
+            # the same call in other calling conventions: argument objects re-used from the calls above and
+            # read-only (a function that writes into them raises), Fortran-ordered / strided views, the
+            # factor as Python int, numpy scalar or 0-d array
+            big = np.zeros((2 * c['p'], c['e']))
+            big[::2] = mob
+            bigf = np.zeros(2 * c['p'])
+            bigf[::2] = fr
+            ro_m, ro_f = mob.copy(), fr.copy()
+            ro_m.setflags(write=False)
+            ro_f.setflags(write=False)
+            n = c['n']
+            variants = [('read-only arguments', ro_m, ro_f, n),
+                        ('Fortran-ordered mobility', np.asfortranarray(mob), fr, n),
+                        ('strided views', big[::2], bigf[::2], n),
+                        ('factor as numpy scalar', mob, fr, np.float64(n)),
+                        ('factor as 0-d array', mob, fr, np.array(n))]
+            if float(n).is_integer():
+                variants.append(('factor as Python int', mob, fr, int(n)))
+            out['conv'] = []
+            for name, m_, f_, n_ in variants:
+                try:
+                    r = [np.atleast_1d(np.array(f(m_, f_, labyrinth_factor=n_), dtype=np.float64)).tolist() for f in funcs]
+                    out['conv'].append((name, r, None))
+                except Exception as ex:
+                    out['conv'].append((name, None, type(ex).__name__ + ': ' + str(ex)))
+            out['mutated'] = out['mutated'] or not (np.array_equal(m0, mob) and np.array_equal(f0, fr))
     except Exception as ex:
         out['err'] = type(ex).__name__ + ': ' + str(ex)
     return out
@@ -179,6 +235,11 @@ def hs_cond(fr, ms, m0):
     return abs(m0) + A / abs(D) + abs(Ak) / (D * D) * (1 + A / (3 * abs(m0)))
 
 
+# relative slack of the oracle per rule in front of the conditioning magnitude: the Hashin-Shtrikman magnitude
+# already contains the amplification 1/D, 1/D^2 of its cancellations, so ~900 ulp are enough there
+TOLK = [1e-9, 1e-9, 1e-13, 1e-13]
+
+
 def col_scales(fr, col):
     """magnitudes for the 4 bound rules on one column (undefined entries substituted like the docs say)"""
     F = [frac(f) for f in fr]
@@ -201,6 +262,12 @@ def oracle_A(c, out):
     TOL = 1e-9
     if out.get('mutated'):
         v.append(('arguments_unchanged', 'rule function modifies its arguments', 'a rule function modified mobility / phaseFracs in place'))
+    for name, r, err in out.get('conv', []):
+        if err is not None:
+            v.append(('calling_convention', name, 'the rule functions raised %s when called with %s' % (err, name)))
+        elif any(not same(a, b, 1e-12) for a, b in zip(r, res)):
+            k = [i for i, (a, b) in enumerate(zip(r, res)) if not same(a, b, 1e-12)][0]
+            v.append(('calling_convention', name, '%s called with %s returned %r, with plain float64 arrays %r' % (RULES[k], name, r[k], res[k])))
     for j in range(e):
         col = [c['mob'][i][j] for i in range(p)]
         sc = col_scales(fr, col)
@@ -216,8 +283,8 @@ def oracle_A(c, out):
             continue
         # permutation invariance (all five rules, undefined entries included)
         for k, name in enumerate(RULES):
-            s = sc[k] if k < 4 else sc[0]
-            if not np.isfinite(pm[k]) or abs(res[k][j] - pm[k]) > TOL * s:
+            s = TOLK[k] * sc[k] if k < 4 else TOL * sc[0]
+            if not np.isfinite(pm[k]) or abs(res[k][j] - pm[k]) > s:
                 v.append(('permutation_invariant', name, '%s column %d: %r for the phases as listed, %r for the order %r' % (name, j, res[k][j], pm[k], c['perm'])))
         # labyrinth
         if out['lab1'][j] != wu:
@@ -229,12 +296,12 @@ def oracle_A(c, out):
         lo, hi = min(col), max(col)
         # between the smallest and the largest phase mobility
         for k, name in enumerate(RULES[:4]):
-            if vals[k] < lo - TOL * sc[k] or vals[k] > hi + TOL * sc[k]:
+            if vals[k] < lo - TOLK[k] * sc[k] or vals[k] > hi + TOLK[k] * sc[k]:
                 v.append(('within_min_max', name, '%s column %d: %r outside [%r, %r] (fractions %r, mobilities %r)' % (name, j, vals[k], lo, hi, fr, col)))
         # ordering
         chain = [(1, 'WienerLower'), (3, 'HashinLower'), (2, 'HashinUpper'), (0, 'WienerUpper')]
         for (a, na), (b, nb) in zip(chain[:-1], chain[1:]):
-            if vals[a] > vals[b] + TOL * (sc[a] + sc[b]):
+            if vals[a] > vals[b] + TOLK[a] * sc[a] + TOLK[b] * sc[b]:
                 v.append(('ordering', '%s<=%s' % (na, nb), 'column %d: %s = %r > %s = %r (fractions %r, mobilities %r)' % (j, na, vals[a], nb, vals[b], fr, col)))
         # a single phase (or one phase carrying the whole fraction): the phase mobility
         whole = [i for i in range(p) if fr[i] == 1.0]
@@ -242,7 +309,7 @@ def oracle_A(c, out):
             m = col[whole[0]]
             for k, name in enumerate(RULES):
                 val = res[k][j]
-                t = 1e-14 * abs(m) if p == 1 else TOL * (sc[k] if k < 4 else sc[0])
+                t = 1e-14 * abs(m) if p == 1 else (TOLK[k] * sc[k] if k < 4 else TOL * sc[0])
                 if abs(val - m) > t:
                     v.append(('single_phase', name, '%s column %d: %r for a single phase of mobility %r' % (name, j, val, m)))
     return v
@@ -419,6 +486,7 @@ def gen_steps(rng, db, npts, same_x, modes_p, max_excl):
                 st['kind'] = 'mobility'         # computeMobility on the same array
         else:
             st['point'] = int(rng.integers(0, npts))
+            st['conv'] = int(rng.integers(0, 8))       # calling convention of the extra cache-free call
         steps.append(st)
     return steps
 
@@ -472,11 +540,18 @@ def gen_B(rng, quick):
         fr = simplex(rng, len(names), str(rng.choice(['exact', 'dirichlet'])))
         if min(fr) == 0.0:                    # stable phases have a positive amount
             fr = simplex(rng, len(names), 'dirichlet')
+        tmob = None
+        if len(names) >= 2 and rng.random() < 0.2:
+            # the point has just entered a multi-phase region: one phase in a trace amount, mobilities
+            # of the phases 6-12 decades apart
+            fr, tmob = trace_case(rng, len(names), e)
         stable = []
-        for nm, f in zip(names, fr):
+        for q, (nm, f) in enumerate(zip(names, fr)):
             k = rng.multinomial(16 - e, [1.0 / e] * e) + 1          # dyadic composition, exact sum 1
             X = {el: float(kk) / 16 for el, kk in zip(elements, k)}
             raw = {el: float(10 ** rng.uniform(-22, -16)) for el in elements} if nm in with_mob else None
+            if raw is not None and tmob is not None:
+                raw = {el: float(tmob[q][i]) for i, el in enumerate(elements)}
             stable.append({'name': nm, 'NP': float(f), 'X': X, 'raw': raw})
         points.append({'xi': xi, 'T': T, 'stable': stable})
     steps = gen_steps(rng, db, len(points), lambda a, b: pairs[a][0] == pairs[b][0], [0.3, 0.25, 0.2, 0.25], min(3, ndb))
@@ -543,6 +618,50 @@ def call_impl(therm, c, step, table, pts=None):
         return None, None, type(ex).__name__ + ': ' + str(ex)
 
 
+CONVENTIONS = ['x list, T float, table omitted', 'x tuple, T int, hashTable=None by keyword', 'x array, T numpy scalar, None positional',
+               'x array, T 0-d array', 'x list, T list', 'x (1, e-1) array, T (1,) array', 'binary: x Python float', 'binary: x 0-d array, T numpy int']
+
+
+def call_conv(therm, c, step):
+    """the single-point call of the step in another calling convention (cache-free); returns
+    (values, potentials, error, argument objects unchanged?)"""
+    from kawin.diffusion.HomogenizationParameters import computeHomogenizationFunction
+    k = step['point']
+    xv, Tv = point_x(c, k), pt_T(c, k)
+    conv = step['conv']
+    binary = len(c['elements']) == 2
+    if conv in (6, 7) and not binary:
+        conv -= 4
+    Tint = float(Tv).is_integer()
+    kw = {}
+    if conv == 0:
+        x, T, pos = list(xv), float(Tv), ()
+    elif conv == 1:
+        x, T, pos = tuple(xv), (int(Tv) if Tint else float(Tv)), ()
+        kw = {'hashTable': None}
+    elif conv == 2:
+        x, T, pos = np.array(xv, dtype=np.float64), np.float64(Tv), (None,)
+    elif conv == 3:
+        x, T, pos = np.array(xv, dtype=np.float64), np.array(Tv), ()
+    elif conv == 4:
+        x, T, pos = list(xv), [float(Tv)], ()
+    elif conv == 5:
+        x, T, pos = np.array([xv], dtype=np.float64), np.array([Tv], dtype=np.float64), ()
+    elif conv == 6:
+        x, T, pos = float(xv[0]), float(Tv), ()
+    else:
+        x, T, pos = np.array(xv[0]), (np.int64(Tv) if Tint else np.float64(Tv)), ()
+    before = (copy.deepcopy(x), copy.deepcopy(T))
+    e = len(c['elements'])
+    try:
+        with np.errstate(all='ignore'):
+            avg, mu = computeHomogenizationFunction(therm, x, T, make_params(step), *pos, **kw)
+        same_args = bool(np.array_equal(np.asarray(before[0]), np.asarray(x)) and np.array_equal(np.asarray(before[1]), np.asarray(T)))
+        return np.array(avg, dtype=np.float64).reshape(e).tolist(), np.array(mu, dtype=np.float64).reshape(e).tolist(), None, same_args
+    except Exception as ex:
+        return None, None, type(ex).__name__ + ': ' + str(ex), True
+
+
 def call_mobility(therm, c, step, table):
     """computeMobility on the array of the step: per entry (names, rows, fractions, mu)"""
     from kawin.diffusion.DiffusionParameters import computeMobility
@@ -593,6 +712,8 @@ def run_impl_B(c):
             fr.append(memo[key])
         out['fresh'].append(fr)
         out['fresh_array'].append(call_impl(get_therm(c), c, st, None) if is_array(st) else None)
+        if 'conv' in st and not is_array(st):
+            out.setdefault('conv', {})[len(out['cached']) - 1] = call_conv(get_therm(c), c, st)
     out['calls'] = getattr(therm, 'calls', None)
     return out
 
@@ -651,7 +772,7 @@ def node_bounds(c, st, k, val):
         sc = col_scales(fr, col)[st['rule']]
         if sc is None or not np.isfinite(val[j]):
             continue
-        tol = 1e-9 * float(sc)
+        tol = TOLK[st['rule']] * float(sc)
         if val[j] < min(col) - tol or val[j] > max(col) + tol:
             return 'element %d: %r outside [%r, %r], the phase mobilities at this node (x = %r, T = %r)' % (
                 j, val[j], min(col), max(col), point_x(c, k), pt_T(c, k))
@@ -703,6 +824,17 @@ def oracle_B(c, out):
                 msg = node_bounds(c, st, k, cv[j])
                 if msg is not None:
                     v.append(('within_min_max', RULES[st['rule']] + ' at a node', i, 'step %d entry %d, %s: %s' % (i, j, RULES[st['rule']], msg)))
+            cc = out.get('conv', {}).get(i)
+            if cc is not None:
+                xv, xmu, xerr, xsame = cc
+                name = CONVENTIONS[st['conv']]
+                if xerr is not None:
+                    v.append(('calling_convention', name, i, 'step %d (%s): the call with %s raised %s, with a list and a float it returns %r' % (i, where, name, xerr, fv)))
+                elif not same(xv, fv, rt_fresh) or not same(xmu, fmu, rt_fresh):
+                    v.append(('calling_convention', name, i, 'step %d (%s, %s, rule %s): called with %s the result is %r / %r, with a list and a float %r / %r'
+                              % (i, where, what, RULES[st['rule']], name, xv, xmu, fv, fmu)))
+                elif not xsame:
+                    v.append(('arguments_unchanged', 'computeHomogenizationFunction modifies x or T', i, 'step %d: the x / T objects handed over (%s) were modified' % (i, name)))
             if arr is not None:
                 av, amu, aerr = arr
                 if aerr is not None:
@@ -955,6 +1087,13 @@ def run_impl_D(c):
         else:
             hp = HP(rule_arg(ct, HP), labyrinthFactor=ct['n'], postProcessFunction=post_arg(ct, HP), postProcessArgs=ct['args'])
             model = HomogenizationModel([-1e-3, 1e-3], 5, ['NI', 'CR'], ['FCC_A1', 'BCC_A2'], homogenizationParameters=hp)
+        def snapshot(m):
+            q = m.homogenizationParameters
+            return ([i for i, f in enumerate(funcs) if q.homogenizationFunction is f], float(q.labyrinthFactor),
+                    [i for i, f in enumerate(posts) if q.postProcessFunction is f], list(q.postProcessParameters))
+        # two more models alive in the same process: one with default parameters built before, one built after
+        other1 = HomogenizationModel([-1e-3, 1e-3], 5, ['NI', 'CR'], ['FCC_A1', 'BCC_A2'])
+        snap1 = snapshot(other1)
         for o in c['ops']:
             tgt = hp if o['via'] == 'params' else model
             if o['op'] == 'rule':
@@ -964,6 +1103,14 @@ def run_impl_D(c):
             else:
                 (tgt.setPostProcessFunction if o['via'] == 'params' else tgt.setMobilityPostProcessFunction)(post_arg(o, HP), o['args'])
         fin_hp = model.homogenizationParameters
+        mine = snapshot(model)
+        other2 = HomogenizationModel([-1e-3, 1e-3], 5, ['NI', 'CR'], ['FCC_A1', 'BCC_A2'])
+        out['others_before'] = [snap1, ([0], 1.0, [0], [None])]
+        out['others_after'] = [snapshot(other1), snapshot(other2)]
+        # ... which are then configured differently: the first model must not notice
+        other1.setMobilityFunction('hashin lower'); other1.setLabyrinthFactor(2); other1.setMobilityPostProcessFunction('majority')
+        other2.setMobilityFunction('lab'); other2.setLabyrinthFactor(1.25); other2.setMobilityPostProcessFunction('exclude', ['SIGMA'])
+        out['mine'] = [mine, snapshot(model)]
         out['same_object'] = fin_hp is hp
         out['rule'] = [i for i, f in enumerate(funcs) if fin_hp.homogenizationFunction is f]
         out['mode'] = [i for i, f in enumerate(posts) if fin_hp.postProcessFunction is f]
@@ -1011,6 +1158,11 @@ def oracle_D(c, out):
     if out['mode'] != [mode] or out['args'] != [args]:
         v.append(('configured_post', proute, "asked for post-processing '%s' %r through %s, configured: %s %r" % (
             MODES[mode], args, proute, [MODES[i] for i in out['mode']], out['args'])))
+    if out['others_before'] != out['others_after']:
+        v.append(('instances_independent', 'another model changed', 'configuring one HomogenizationModel changed another one (rule, factor, post, args): default-constructed models had %r, after the calls %r'
+                  % (out['others_before'], out['others_after'])))
+    if out['mine'][0] != out['mine'][1]:
+        v.append(('instances_independent', 'changed by another model', 'configuring two other HomogenizationModel objects changed this one from %r to %r' % (out['mine'][0], out['mine'][1])))
     if not out['same_object']:
         v.append(('configured_rule', 'model does not use the parameter object it was given', 'HomogenizationModel holds another HomogenizationParameters object than the one passed in'))
     # the labyrinth rule with the factor that is now configured: never above upper Wiener, equal at 1
